@@ -161,4 +161,30 @@ def frData (st : State) (a : Nat) : Nat × Nat :=
   | none => (0, 0)
   | some f => f.data
 
+/-- the members of a `SignalActivation` under construction (the constructor's view; the frame is pushed when it is done:
+    `pushAct`).  `begin = none` = the end sentinel. -/
+structure Act where
+  invalidated : Bool := false
+  data : Option (Nat × Nat) := none
+  next : Option Nat := none
+  begin : Option Nat := none
+  /-- `end` was assigned the end of the list `begin` was taken from -/
+  hasEnd : Bool := false
+
+/-- `list.begin()`: the first node, or — for an empty list — the end sentinel itself: then `begin == end` holds for good and
+    nodes appended later are never reached (List.hpp: `end()` is the address of the list's end item, `begin()` the first item
+    or that same address) -/
+def listBegin (xs : List Slot) : Option Nat := if xs.isEmpty then none else some 0
+
+/-- the constructed activation becomes a frame of the call stack; an activation without signal data (`data = 0`) is inert and
+    is not pushed -/
+def pushAct (r : State × Act) (this : Nat) : State × Option (Nat × Option Nat) :=
+  match r.2.data with
+  | none => (r.1, none)
+  | some dg => ({ r.1 with frames := ({ next := r.2.next, invalidated := r.2.invalidated, data := dg } : Frame) :: r.1.frames },
+      some (this, r.2.begin))
+
+/-- the activation's storage goes away after the body of its destructor: the frame is popped -/
+def _root_.Nstd.Callback.State.popFrame (st : State) (fid : Nat) : State := { st with frames := popTo st.frames fid }
+
 end Nstd.Callback.H
